@@ -214,7 +214,7 @@ PROPS = {
               ("reuse-set", lambda r: gen.gen_reuse(r, "set"), 0.3),
               ("reuse-cross", lambda r: gen.gen_reuse(r, "cross"), 0.4),
               ("reuse-set-ir", lambda r: gen.gen_reuse(r, "set-ir"), 0.2),
-              ("two-ir-forests", gen.gen_setops_two_ir, 0.4)], quick=60, thorough=600,
+              ("two-ir-forests", gen.gen_setops_two_ir, 0.4), ("recycle-cached", gen.gen_recycle_cached, 0.4)], quick=60, thorough=600,
         level_text="Proved: the generic apply recursion is pointwise for any scalar function under any mix of "
                    "operand/result reduction rules, and its result is reduced. Tie: tables+dumps of "
                    "UNION/INTERSECTION/DIFFERENCE/COMPLEMENT across forests; operands re-shown unchanged.",
